@@ -131,13 +131,20 @@ claim("C02", "proof",
       "Assumed: blessed/xterm capability semantics at row level (validated by the bounded suite against spec/terminal.py and pyte), "
       "height/width properties as fields, lines identified with their terminal strings (C19/C01/C06/C04 contracts).",
       "contract-based deductive verification with a representation invariant (induction over histories) + bounded history checking", "DESIGN 9/C02")
-claim("C07", "exploration",
-      "Scroll accounting of the real CursorAwareWindow.render_to_terminal proved for every array length, height and top row (number "
-      "of scrolls, new top_usable_row, return value, cursor row) with all non-integer state abstracted; what the terminal and its "
-      "scrollback show is decided by bounded histories on a reference xterm model with scrollback (+ pyte.HistoryScreen).",
-      "Screen-shift invariant (rows and cache re-keyed per scroll, scrollback growth) is not proved deductively (DESIGN 9/C07); "
-      "scroll_down assumed to scroll exactly one line.",
-      "contract-based deductive verification of the integer bookkeeping (abstracted) + bounded history checking", "DESIGN 9/C07")
+claim("C07", "proof",
+      "Inductive proof over render histories: the real CursorAwareWindow.render_to_terminal (on_terminal_size_change inlined) is proved, from "
+      "ANY window/terminal state satisfying the representation invariant (same size => every cached row of [top, H) is displayed as cached "
+      "and the cache is empty or complete on [top, H); whatever scrolls into view is blank), to leave every line above the window's first "
+      "row exactly as it was (scrollback included), to show array row i on the tape cell T0+i for every i (rows pushed off the top stay "
+      "intact in the scrollback), to blank the rest of the screen, to scroll exactly max(0, n-(H-T0)) lines, to return the rows pushed off, "
+      "to leave the cursor on the designated cell (the top row if that cell has scrolled off), to write nothing outside the protocol, and to "
+      "re-establish the invariant.  Ghost terminal = a tape of rows (scrolling = moving the screen window along it), row cache = symbolic "
+      "dict with a key shift (re-keying per scroll), three quantified loop invariants; 194 obligations.  Bounded stand-in: 14 690 / 108 000 "
+      "render histories on a reference xterm model with scrollback (+ pyte.HistoryScreen).",
+      "Assumed: blessed/xterm capability semantics at row level and scroll_down = one line (validated by the bounded suite against "
+      "spec/terminal.py and pyte); rows no wider than the terminal, single-column characters; cursor query returns the cursor row; leaving "
+      "the context is covered by the bounded suite only.",
+      "contract-based deductive verification with a representation invariant (induction over histories, tape-model ghost terminal) + bounded history checking", "DESIGN 9/C07")
 
 claim("C12", "exploration",
       "Deductive: for Nonblocking, Termmode, Cbreak, ReplacedSigIntHandler, Input (all flag combinations, fresh and re-used object, main "
